@@ -19,7 +19,7 @@ import (
 func init() {
 	register(&propDef{
 		ID:          "C15",
-		Explanation: "Equality with single-file generation over all trees, worker counts and schedules is not decided. Decides the structural reasons it is true: R1 every field of the event handler that has a sibling `<field>Mutex` is accessed (outside the constructor) only with that mutex in the must-held set; R2 every path handed to the file writer, os.WriteFile, os.Create or os.Remove in the per-file handler derives from that event's own file name through TrimSuffix+constant suffix or the development text-file name function (no other file is touched); R3 the bytes written are the result of format.Source over the generator's buffer, the hash gating the write is computed over that same value, and the write sits inside the hash test; R4 the handler's error reaches the error channel, every non-fatal error increments the counter, the command's final return is non-nil when the counter is positive, and in the per-file generator the errors of parsing, generation, formatting and both writes reach a return; R5 both directory walks consult skipdir.ShouldSkip for directories and return SkipDir, and ShouldSkip's true-returns are exactly vendor, node_modules, dot- and underscore-prefixed; R6 (VTA call graph) nothing reachable from generator.Generate or the parser's Parse calls time.Now, math/rand or os.Getenv, and the generator does not range over a map; R7 the wait-group Add and the semaphore acquire precede the `go` statement, the worker defers Done and the release, and the post-generation channel is closed only after the wait. R8 a slice field of the handler that per-event methods append to without copying is handed to the constructor without declared spare capacity (no make(…, len, cap>len), no re-slice). R9 every output file is replaced, not overwritten in place: os.WriteFile / os.Create, or os.OpenFile with O_TRUNC (constant-evaluated flags). R10 the lazy-mode `already up to date` test is a strict modification-time comparison. R11 the file name compiled into generated code is computed by filepath.Rel (no string surgery on paths). NOT decided: file-system races with other processes, fsnotify delivery, spare capacity produced by append's own growth.",
+		Explanation: "Equality with single-file generation over all trees, worker counts and schedules is not decided. Decides the structural reasons it is true: R1 every field of the event handler that has a sibling `<field>Mutex` is accessed (outside the constructor) only with that mutex in the must-held set; R2 every path handed to the file writer, os.WriteFile, os.Create or os.Remove in the per-file handler derives from that event's own file name through TrimSuffix+constant suffix or the development text-file name function (no other file is touched); R3 the bytes written are the result of format.Source over the generator's buffer, the hash gating the write is computed over that same value, and the write sits inside the hash test; R4 the handler's error reaches the error channel, every non-fatal error increments the counter, the command's final return is non-nil when the counter is positive, and in the per-file generator the errors of parsing, generation, formatting and both writes reach a return; R5 both directory walks consult skipdir.ShouldSkip for directories and return SkipDir, and ShouldSkip's true-returns are exactly vendor, node_modules, dot- and underscore-prefixed; R6 (VTA call graph) nothing reachable from generator.Generate or the parser's Parse calls time.Now, math/rand or os.Getenv, and the generator does not range over a map; R7 the wait-group Add and the semaphore acquire precede the `go` statement, the worker defers Done and the release, and the post-generation channel is closed only after the wait. R8 a slice field of the handler that per-event methods append to without copying is handed to the constructor without declared spare capacity (no make(…, len, cap>len), no re-slice). R9 every output file is replaced, not overwritten in place: os.WriteFile / os.Create, or os.OpenFile with O_TRUNC (constant-evaluated flags). R10 the lazy-mode `already up to date` test is a strict modification-time comparison. R11 the file name compiled into generated code is computed by filepath.Rel (no string surgery on paths). R12 nothing on the per-file path (the function that calls generator.Generate, its package-local callees and callers) constructs a FatalError, the one kind of error at which the command's error loop stops: a file that cannot be generated, formatted or written fails the command without ending the run. NOT decided: file-system races with other processes, fsnotify delivery, spare capacity produced by append's own growth.",
 		Assumptions: []string{"format.Source is deterministic", "sha256 collisions do not occur"},
 		Trusted:     []string{"go/types", "x/tools go/packages, go/cfg, go/ssa, callgraph/vta"},
 		Run:         runC15,
@@ -31,6 +31,7 @@ func runC15(c *Ctx) {
 	outputFilesReplaced(c, "C15.R9")
 	lazySkipIsStrict(c, "C15.R10")
 	fileNameIsRelByPathRules(c, "C15.R11")
+	perFileErrorsAreNotFatal(c, "C15.R12")
 	p := c.pkg("cmd/templ/generatecmd")
 	info := p.TypesInfo
 
@@ -1121,4 +1122,108 @@ func fileNameIsRelByPathRules(c *Ctx, rule string) {
 	}
 	c.count("with_file_name_sites", n)
 	c.floor(rule, 1)
+}
+
+// perFileErrorsAreNotFatal: C15.R12 — "a file that cannot be generated makes the command fail without preventing the
+// other files from being generated". The command's error loop stops at the first error that is a FatalError, so
+// nothing on the per-file path — the function that calls generator.Generate, the package-local functions it calls and
+// its package-local callers up to the event handler — may construct one: a write, parse, generation or formatting
+// failure of ONE file is an ordinary error. FatalError belongs to failures of the run as a whole (walking, watching).
+func perFileErrorsAreNotFatal(c *Ctx, rule string) {
+	p := c.pkg("cmd/templ/generatecmd")
+	info := p.TypesInfo
+	fatal, _ := p.Types.Scope().Lookup("FatalError").(*types.TypeName)
+	if fatal == nil {
+		c.ok(rule, p.PkgPath+"|no-fatal-error-type", "", "the package has no FatalError type: no error stops the run early")
+		return
+	}
+	byObj := map[types.Object]*ast.FuncDecl{}
+	var gen *ast.FuncDecl
+	for _, fd := range allFuncDecls(p) {
+		byObj[info.Defs[fd.Name]] = fd
+		if fd.Body != nil && containsCallTo(info, fd.Body, pkgGenerator+".Generate") {
+			gen = fd
+		}
+	}
+	if gen == nil {
+		c.viol(rule, "anchor-lost:per-file-generate", "", "no function of generatecmd calls generator.Generate")
+		return
+	}
+	// the per-file region: gen, its package-local callees (transitively), and its callers that take a single file/event
+	region := map[*ast.FuncDecl]bool{}
+	var down func(fd *ast.FuncDecl, depth int)
+	down = func(fd *ast.FuncDecl, depth int) {
+		if fd == nil || region[fd] || fd.Body == nil || depth > 4 {
+			return
+		}
+		region[fd] = true
+		ast.Inspect(fd.Body, func(x ast.Node) bool {
+			if call, ok := x.(*ast.CallExpr); ok {
+				if fn := calleeOf(info, call); fn != nil {
+					down(byObj[fn], depth+1)
+				}
+			}
+			return true
+		})
+	}
+	down(gen, 0)
+	for _, fd := range allFuncDecls(p) {
+		if fd.Body == nil || region[fd] {
+			continue
+		}
+		callsGen := false
+		ast.Inspect(fd.Body, func(x ast.Node) bool {
+			if call, ok := x.(*ast.CallExpr); ok {
+				if fn := calleeOf(info, call); fn != nil && byObj[fn] == gen {
+					callsGen = true
+				}
+			}
+			return true
+		})
+		if callsGen {
+			down(fd, 0)
+		}
+	}
+	n := 0
+	var names []string
+	for fd := range region {
+		names = append(names, fd.Name.Name)
+	}
+	sort.Strings(names)
+	for fd := range region {
+		ord := 0
+		ast.Inspect(fd.Body, func(x ast.Node) bool {
+			cl, ok := x.(*ast.CompositeLit)
+			if !ok {
+				return true
+			}
+			if t := info.TypeOf(cl); t == nil || !types.Identical(t, fatal.Type()) {
+				return true
+			}
+			ord++
+			n++
+			c.viol(rule, fmt.Sprintf("%s|constructs-FatalError#%d", funcKey(p, fd), ord), c.pos(cl.Pos()),
+				fmt.Sprintf("%s is on the per-file path (it is, calls, or is called by %s) and wraps an error in FatalError: the command's error loop returns at the first FatalError, so one file that cannot be written, parsed or formatted stops the run and the remaining templates are not generated", fd.Name.Name, gen.Name.Name))
+			return true
+		})
+	}
+	c.ok(rule, p.PkgPath+"|per-file-path-scanned", c.pos(gen.Pos()), fmt.Sprintf("%d function(s) on the per-file path (%s); %d FatalError constructions among them", len(region), strings.Join(names, ", "), n))
+	// the loop that distinguishes the two really exists (otherwise the rule is about nothing)
+	stops := false
+	for _, fd := range allFuncDecls(p) {
+		if fd.Body == nil {
+			continue
+		}
+		ast.Inspect(fd.Body, func(x ast.Node) bool {
+			if call, ok := x.(*ast.CallExpr); ok && len(call.Args) == 2 {
+				if fn := calleeOf(info, call); fn != nil && fullName(fn) == "errors.Is" {
+					if t := info.TypeOf(call.Args[1]); t != nil && types.Identical(t, fatal.Type()) {
+						stops = true
+					}
+				}
+			}
+			return true
+		})
+	}
+	c.control(rule+":fatal-errors-stop-the-run", stops)
 }
